@@ -1,4 +1,5 @@
-// Package vhttp replaces net/http.Post in the rewritten uploader by a model
+// Package vhttp replaces net/http.Post (and, through http.DefaultTransport, every other use of the default
+// client) in the rewritten uploader by a model
 // server whose answer the harness (or, under the scheduler, a choice point)
 // decides. The request is split into "received by the server" and "response
 // delivered" so that a process kill can fall between the two.
@@ -42,6 +43,31 @@ func Post(url, contentType string, body io.Reader) (*http.Response, error) {
 	if Passthrough {
 		return http.Post(url, contentType, body)
 	}
+	return model(url, body, nil)
+}
+
+// transport makes the seam independent of how the uploader spells its request: anything sent through
+// http.DefaultClient / http.DefaultTransport (http.Post, Client.Do, http.NewRequest + Do ...) reaches the
+// same model server. RoundTrip runs on the calling goroutine, so its scheduling points are the caller's.
+type transport struct{ prev http.RoundTripper }
+
+func (t transport) RoundTrip(req *http.Request) (*http.Response, error) {
+	if Passthrough {
+		return t.prev.RoundTrip(req)
+	}
+	var body io.Reader = bytes.NewReader(nil)
+	if req.Body != nil {
+		body = req.Body
+		defer req.Body.Close()
+	}
+	return model(req.URL.String(), body, req)
+}
+
+func init() {
+	http.DefaultTransport = transport{prev: http.DefaultTransport}
+}
+
+func model(url string, body io.Reader, req *http.Request) (*http.Response, error) {
 	if sched.Active() {
 		sched.CheckDead()
 		sched.Point("http.post.send", 0)
@@ -73,7 +99,8 @@ func Post(url, contentType string, body io.Reader) (*http.Response, error) {
 		Status:     fmt.Sprintf("%d %s", status, http.StatusText(status)),
 		StatusCode: status,
 		Proto:      "HTTP/1.1", ProtoMajor: 1, ProtoMinor: 1,
-		Header: http.Header{},
-		Body:   io.NopCloser(bytes.NewReader(nil)),
+		Header:  http.Header{},
+		Body:    io.NopCloser(bytes.NewReader(nil)),
+		Request: req,
 	}, nil
 }
